@@ -104,7 +104,10 @@ def stable_solve(A, B):
         A = A.reshape(working_shape_A)
         B = B.reshape(working_shape_B)
 
-        C = np.zeros_like(B)
+        # The result type follows both operands (e.g. complex A, real B),
+        # integers are solved in floating point like numpy.linalg.solve does.
+        C = np.zeros(B.shape, dtype=np.promote_types(
+            np.result_type(A.dtype, B.dtype), np.float32))
         for i in range(working_shape_A[0]):
             # lstsq is much slower, use it only when necessary
             try:
